@@ -186,6 +186,21 @@ fn explore(acc: &mut Acc, family: &str, label: &str, detail: serde_json::Value, 
     if acc.outcomes.len() < 5000 {
         acc.outcomes.insert(base.chars().take(80).collect());
     }
+    // the oracle must own every choice: the canonical order run again gives the same outcome
+    // (a collection the oracle does not see would show up here as run-to-run variation)
+    if family == "program" {
+        for _ in 0..6 {
+            let again = order::run_with(&[], f).0;
+            acc.runs += 1;
+            if again != base {
+                acc.violations.push(Violation {
+                    sig: format!("C05|outcome-varies-under-identical-order-choices|{family}|{label}"),
+                    detail: json!({"kind": "order", "case": detail, "canonical_order_outcome": base, "same_choices_again": again}),
+                });
+                break;
+            }
+        }
+    }
     if let Some((choices, other)) = ex.runs.iter().find(|r| r.1 != base) {
         // replay the deviating run twice: the same choices must give the same outcome
         let again = order::run_with(choices, f).0;
@@ -296,6 +311,30 @@ pub fn run(tier: &str) -> i32 {
     let accs = par_fold(PROGRAMS.len(), Acc::default, |acc, i| {
         let text = PROGRAMS[i];
         explore(acc, "program", &format!("#{i} {}", text.chars().take(50).collect::<String>().replace('|', "/")), json!({"kind": "program", "stdlib": true, "text": text}), bound, if thorough { 40_000 } else { 4000 }, &mut || program_outcome(text));
+        // the same parsed program run again, in this process, after the runs above: same outcome
+        {
+            verif::set_fuel(Some(core::QUICK_FUEL), Some(core::DEPTH));
+            let interp = Interpreter::with_stdlib();
+            if let Ok(Ok(code)) = guard(|| Code::parse(&interp, text)) {
+                let run = |code: &Code| match guard(|| code.exec()) {
+                    Ok(Ok(v)) => format!("value={}", canon_typed(&v)),
+                    Ok(Err(e)) => format!("error:{}", core::exec_error_kind(&e)),
+                    Err(Stop::Panic(p)) => format!("panic:{}@{}", p.short_msg(), p.file()),
+                    Err(Stop::Exhausted) => "exhausted".into(),
+                };
+                let first = run(&code);
+                let second = run(&code);
+                let third = run(&code.clone());
+                acc.runs += 3;
+                if first != second || first != third {
+                    acc.violations.push(Violation {
+                        sig: format!("C05|same-parsed-program-run-again-differs|#{i}"),
+                        detail: json!({"kind": "program", "stdlib": true, "text": text, "first_run": first, "second_run": second, "third_run": third}),
+                    });
+                }
+            }
+            verif::set_fuel(None, None);
+        }
         // every program must be accepted and complete under the canonical order (non-vacuity)
         let base = program_outcome(text);
         if !base.contains("value=") && !(FAILING.contains(&text) && base.contains("error:")) {
